@@ -31,6 +31,13 @@ int main(int argc, char** argv) {
     for (long x = c * CH; x < (c + 1) * CH; ++x) { chk(x, worst); ++evals; long v = atan(as_fixed(x)).v; if (v + 2 < mx) fail("atan not monotone within 2 ulp", x, 0, v); if (v > mx) mx = v; }
     chmax[c] = mx; }
   { long mx = -1; for (long c = 0; c < nch; ++c) { long v0 = atan(as_fixed(c * CH)).v; if (v0 + 2 < mx) fail("atan not monotone within 2 ulp (chunk seam)", c * CH, 0, v0); if (chmax[c] > mx) mx = chmax[c]; } }
+  // strided sweep of the whole non-constant range [0, 2^34) (every 1024th raw value, shifted by the seed)
+  if (!tier) {
+    long worst_evals = 0;
+    #pragma omp parallel for schedule(static) reduction(max:worst) reduction(+:worst_evals)
+    for (long x = (long)(seed % 1024); x < (1l << 34); x += 1024) { chk(x, worst); ++worst_evals; }
+    evals += worst_evals;
+  }
   // windows around powers of two and segment boundaries, random, above the saturation threshold
   std::vector<long> pts; long segs[] = {28672, 45056, 77824, 159744, 1l << 34};
   for (int k = 10; k < 47; k++) for (long d = -2000; d <= 2000; d++) pts.push_back((1l << k) + d);
